@@ -9,9 +9,9 @@ def _fuzz(monitor, rule_nt):
         thorough = tier == "thorough"
         return [
             dict(name="fuzz_stream", kind="libfuzzer", bin="fuzz_stream", jobs=16,
-                 runs=(1500000 if thorough else 120000), max_total_time=(900 if thorough else 100),
+                 runs=(1500000 if thorough else 120000), max_total_time=(1200 if thorough else 200),
                  max_len=(16384 if thorough else 4096), seed_dirs=["build/seeds/fuzz_stream", "corpus/fuzz_stream"],
-                 dict="fuzz/http.dict", env={"VERIF_MONITOR": monitor}, timeout=(1500 if thorough else 300)),
+                 dict="fuzz/http.dict", env={"VERIF_MONITOR": monitor}, timeout=(1800 if thorough else 400)),
         ]
     return camps
 
